@@ -610,10 +610,19 @@ class WitnessScript(Script):
         if not self.is_p2wsh_multisig():
             raise ValueError(f"Not a multisig witness script: {self}")
 
-        quorum_m = OP_CODE_NAMES[self.commands[0]].split("OP_")[1]
-        quorum_n = OP_CODE_NAMES[self.commands[-2]].split("OP_")[1]
+        quorum_m = int(OP_CODE_NAMES[self.commands[0]].split("OP_")[1])
+        quorum_n = int(OP_CODE_NAMES[self.commands[-2]].split("OP_")[1])
 
-        return int(quorum_m), int(quorum_n)
+        # the script has to be exactly OP_m <n pubkeys> OP_n OP_CHECKMULTISIG
+        pubkeys = self.commands[1:-2]
+        if (
+            not 1 <= quorum_m <= quorum_n
+            or len(pubkeys) != quorum_n
+            or not all(isinstance(c, bytes) and len(c) in (33, 65) for c in pubkeys)
+        ):
+            raise ValueError(f"Not a standard m-of-n multisig witness script: {self}")
+
+        return quorum_m, quorum_n
 
 
 def address_to_script_pubkey(s):
